@@ -346,7 +346,9 @@ def tiger_case(rng):
                          % (quoteattr(sid_attr), "".join(tline(x) for x in trees.terminals(t)), "".join(nts)))
         corpus.append(((i + 1) if 'continuous' in opts else num, t))
         num += rng.randint(1, 4)
-    text = "<?xml version=\"1.0\" encoding=\"utf-8\"?>\n<corpus><head/><body>" + "\n".join(sents_xml) + "</body></corpus>\n"
+    # the declaration as the tool's own writer spells it (single quotes): the model's XML parser (TT/IO/Xml.lean, wave 19)
+    # admits that spelling only; ElementTree does not care
+    text = "<?xml version='1.0' encoding='utf-8'?>\n<corpus><head/><body>" + "\n".join(sents_xml) + "</body></corpus>\n"
     # element structure for the model, through the same XML parser
     root = ET.fromstring(text.encode("utf-8"))
     xs = []
@@ -362,6 +364,9 @@ def tiger_case(rng):
         p = sc.write("f.xml", text)
         out = run_reader("tigerxml", p, opts)
     lines = [Line("corr", "read_tigerxml", [proto.enc_opts(opts), "|".join(xs)], out),
+             # wave 19: the same file from its TEXT through the model's own XML parser (TT.Xml.readTigerText), no ElementTree
+             # on the model's side: foreign ids, shuffled attributes / <nt> / <edge> order, <secedge>, <head/>, XML specials
+             Line("corr", "read_tigerxml_text", [proto.enc_opts(opts), proto.enc_s(text)], out),
              Line("pred", "P.C01.corpus", ["tigerxml", proto.enc_opts(opts), sid_trees(corpus), out])]
     return Case("tigerxml", {"text": text, "opts": opts}, lines, nontrivial=k > 1 or bool(opts))
 
